@@ -506,7 +506,7 @@ class TheJoker:
             # Set up the orbit model
             orbit = KeplerianOrbit(
                 period=P,
-                ecc=p["e"],
+                ecc=xu.to_unit(p["e"], u.one),
                 omega=omega,
                 t_periastron=model.named_vars["t_peri"],
             )
